@@ -239,6 +239,7 @@ int EGLPNUM_TYPENAME_ILLwrite_lp (
 			EGLPNUM_TYPENAME_ILLdata_error (collector, "Can't express SOS information in LP format.");
 	}
 
+	(void) EGLPNUM_TYPENAME_ILLwrite_lp_state_lost (1);
 	write_objective (lp, objname, colnames);
 
 	/* Note, EGLPNUM_TYPENAME_ILLlp_rows_init returns cols ordered by structmap, so we may use 
@@ -280,6 +281,11 @@ int EGLPNUM_TYPENAME_ILLwrite_lp (
 	}
 
 	EGLPNUM_TYPENAME_ILLprint_report (lp, "End\n");
+	if (EGLPNUM_TYPENAME_ILLwrite_lp_state_lost (1) > 0)
+	{
+		rval += EGLPNUM_TYPENAME_ILLdata_error (collector,
+															 "A name or number is too long for a line of an LP file.");
+	}
 CLEANUP:
 	if (lprows != NULL)
 	{
